@@ -64,30 +64,36 @@ def plan(tier, seed):
 
 def floors(tier):
     n = 3 if tier == "quick" else 17
+    t = tier == "thorough"
     return {
-        "evaluations": 100 * n,
-        "distinct_nontrivial": 90 * n,
+        "evaluations": (170 if t else 120) * n,
+        "distinct_nontrivial": (150 if t else 110) * n,
         "history:cold": n,
         "history:nocache": n,
         "history:warm-companion": n,
         "history:warm-home": n,
         "history:inproc-second": n,
-        "history:stale-version": n,
+        "history:stale-version": 2 * n,
         "history:edited": n,
-        "history:reverted": n,
-        "history:inproc-edit": n,
+        "history:reverted": 2 * n,
+        "history:inproc-edit": 2 * n,
         "history:same-name-home": n,
         "history:package": n,
-        "history:truncated": 4 * n,
-        "history:killed": 2 * n,
+        "history:truncated": (6 if t else 5) * n,
+        "history:killed": (5 if t else 2) * n,
         "history:race": n,
-        "events:hit": 10 * n,
-        "events:miss": 10 * n,
-        "events:dump": 10 * n,
-        "events:killed": 2 * n,
-        "warm_hit_confirmed": 5 * n,
-        "set:crash_points": 6 * n if tier == "quick" else 40,
-        "set:race_outcomes": 1,
+        "race_processes": 8 * n,
+        "events:hit": 200 * n,
+        "events:miss": 40 * n,
+        "events:dump": 40 * n,
+        "events:killed": (5 if t else 2) * n,
+        "events:access-denied": 10 * n,
+        "home_cache_written": n,
+        "edit_found": n,
+        "warm_hit_confirmed": 3 * n,
+        "set:crash_points": 30 if t else 10,
+        "set:race_outcomes": 2,
+        "set:stale_variants": 2,
     }
 
 
@@ -633,8 +639,15 @@ def g_kill(cx):
         R.count("history:killed")
         R.observe("crash_points", "kill/%s/%s/%s" % (where, target, offset_class(k["written"], k["size"])))
         on_disk = os.path.getsize(k["file"]) if os.path.exists(k["file"]) else -1
-        R.observe("killed_file_state", "partial-on-final-name" if os.path.basename(k["file"]).lstrip(".").startswith(stem[target]) and
-                  k["file"].endswith(".pickle") and on_disk == k["written"] else "elsewhere")
+        final_name = os.path.basename(k["file"]).lstrip(".").startswith(stem[target]) and k["file"].endswith(".pickle")
+        if on_disk != k["written"]:
+            state = "partial-file-gone"
+        elif final_name:
+            state = "partial-on-final-name"
+        else:
+            state = "partial-on-temporary-name-left-behind"
+            R.count("stale_temporary_file_present_for_later_runs")
+        R.observe("killed_file_state", state)
         res = cx.run(h, deny=deny)
         judge(cx, res, cold, "killed:" + variant, "next-run", crash_key="cache/killed-write-crash", diff_key="cache/report-differs/after-kill")
         res = cx.run(h, deny=deny)
@@ -648,7 +661,8 @@ def g_race(cx, staggered):
     R = cx.R
     hA, resA = cold_reference(cx)
     cold = resA["reports"]
-    rounds = 1 if cx.group_tier == "quick" else 2
+    # thorough: the home-cache location is raced as well (released-together schedule only, to bound CPU time)
+    rounds = 2 if cx.group_tier == "thorough" and not staggered else 1
     for rnd in range(rounds):
         where = "data" if (rnd == 0) else "cache"
         h = cx.new_home()
